@@ -341,6 +341,20 @@ def run_trim(case, ctx):
     exp["migrations"] = [[F(g[0]) - shift, F(g[1]) - shift] + list(g[2:]) for g in spec["migrations"]]
     exp["sites"] = [[F(s[0]) - shift] + list(s[1:]) for s in exp["sites"]]
     exp["L"] = end - shift
+    # Subtracting the shift is a floating-point operation: two distinct coordinates may land on the same double
+    # (an ulp-wide edge collapses, two sites coincide).  The shifted rows are then not a valid table collection
+    # and the only sound outcome is a LibraryError; the property does not promise that such a trim succeeds.
+    pos = [r[0] for r in exp["sites"]]
+    collision = (shift > 0 and (any(not (r[0] < r[1]) for r in exp["edges"] + exp["migrations"])
+                                or len(set(pos)) < len(pos) or any(not (0 <= x < exp["L"]) for x in pos)
+                                or any(r[1] > exp["L"] for r in exp["edges"] + exp["migrations"])))
+    ctx.label("shift_collision", collision)
+    if collision:
+        try:
+            call()
+        except tskit.LibraryError:
+            return
+        ctx.fail(op + ".shift_collision", "shifted coordinates collide, yet the trim returned a tree sequence")
     out = call()
     t_out = out.dump_tables()
     got = gen.spec_from_tables(t_out, tskit)
